@@ -10,7 +10,7 @@ for id in $ids; do
   [ "$id" = "C18-f" ] && continue      # changes the translated dialect table; run by hand
   rm -rf "$S/repo"; mkdir -p "$S/repo"; cp -r /repo/alembic "$S/repo/"
   if ! (cd "$S/repo" && patch -p1 -s < "$OLDPWD/seeded/$id/patch.diff" >/dev/null 2>&1); then echo "$id: patch does not apply"; continue; fi
-  out=$(VERIF_REPO="$S/repo" nice ./check "$prop" 2>&1 | grep -v "^KNOWN")
+  out=$(VERIF_NO_EVIDENCE=1 VERIF_REPO="$S/repo" nice ./check "$prop" 2>&1 | grep -v "^KNOWN")
   line=$(echo "$out" | grep "^VIOLATION" | head -1)
   summ=$(echo "$out" | tail -1)
   python3 - "$id" "$prop" "$line" "$summ" <<'PY'
